@@ -1,2 +1,202 @@
-(* C09 -- statements only. *)
-From UP Require Import Base.Chars Model.Uri.
+(* C09 -- normalization never changes what a reference identifies.  Statements only.
+
+   All theorems are about the models of src/UriNormalize.c ([normalize mask u], uriNormalizeSyntaxEx with the
+   allocations succeeding; mask 63 = all components = uriNormalizeSyntax) and of src/UriResolve.c
+   ([add_base compat R B], uriAddBaseUriEx; compat = false is uriAddBaseUri), for every URI object, not only
+   parsed ones.  Vocabulary (Spec/NormalWf.v, Proofs/ResolveProofs.v, Proofs/CommuteProofs.v):
+     components u       every field but [owner]
+     uri_pct_wf u       every '%' in user info, registered name, path segments, query, fragment starts
+                        "%" HEXDIG HEXDIG (the grammar allows no other '%')
+     one_kind u         at most one of the host-data members ip4 / ip6 / ipFuture is set
+     no_pct_dot u       no segment that the percent-encoding engine turns into "." or ".." ("%2e", ".%2E", ...)
+     relative_ref u     no scheme, no host, not absolutePath: a relative-path reference
+     wf u               no '/' inside a segment, no absolutePath flag with a host, a host-less path does not
+                        print as "//..." resp. a rootless one does not begin with an empty segment
+   Every parsed reference satisfies uri_pct_wf, one_kind and wf (C06: parsed_wf).
+
+   The property is FALSE on the current code for two shapes of relative-path references, both open findings
+   confirmed on the real code, both with a refutation witness below:
+     kf_cancels R       D7a  the dot segments cancel completely: "a/.." becomes the empty reference
+     kf_dot_eaten R     D7e  a ".." cancels the "." kept in front of a "x:y" segment: "./b:c/../../x" becomes "x"
+   and the kind of a reference changes in
+     kf_cancels         D7a  "a/.."      relative path -> empty path
+     kf_exposes_empty   D7c  "a/..//b"   relative path -> absolute path "/b"
+     kf_exposes_colon   D7b  "a/../b:c"  "b:c" reads back as scheme b
+     kf_abs_dslash      D14  "/..//."    "//" reads back as an empty authority
+   The shape D7d ("./b:c/../x" becomes "./x") is harmless here: it is covered by C09_commute. *)
+From Coq Require Import List NArith Bool String.
+From UP Require Import Base.Chars Model.Uri Model.Common Model.Resolve Model.Normalize Model.Parse Model.Recompose
+  Spec.NormalWf Proofs.ResolveProofs Proofs.NormalizeProofs Proofs.CommuteProofs.
+Import ListNotations.
+Local Open Scope N_scope.
+
+(* ---- 1. scheme and authority ------------------------------------------------------------ *)
+(* whatever the mask: the result has a scheme iff the argument has one, a host iff the argument has one *)
+Theorem C09_scheme_authority_kept : forall mask u,
+  is_some (scheme (normalize mask u)) = is_some (scheme u)
+  /\ is_host_set (normalize mask u) = is_host_set u.
+Proof. exact scheme_authority_kept. Qed.
+Print Assumptions C09_scheme_authority_kept.
+
+(* ---- 2. normalization commutes with resolution --------------------------------------------- *)
+(* N (resolve (N R) B) = N (resolve R B), every component, for EVERY reference R (relative-path references
+   included) outside the two shapes, and every base B -- absolute or not (a base without scheme is rejected
+   on both sides), with any dot segments and percent-encodings.
+   Hypotheses: strict resolution, or a reference without scheme (see C09_commute_compat_refuted);
+   the three facts about R above; a base object does not combine a host with the absolutePath flag
+   (implied by wf B: ResolveProofs.wf_host_abs). *)
+Theorem C09_commute : forall c R B,
+  (c = false \/ scheme R = None) ->
+  uri_pct_wf R = true -> one_kind R = true -> no_pct_dot R = true ->
+  (is_host_set B = true -> absolutePath B = false) ->
+  kf_cancels R = false -> kf_dot_eaten R = false ->
+  components (normalize 63 (snd (add_base c (normalize 63 R) B)))
+  = components (normalize 63 (snd (add_base c R B))).
+Proof. exact commute. Qed.
+Print Assumptions C09_commute.
+
+(* a reference with a scheme, an authority or an absolute path: no carve-out, nothing asked of the base *)
+Theorem C09_commute_not_relative : forall c R B,
+  (c = false \/ scheme R = None) ->
+  uri_pct_wf R = true -> one_kind R = true -> no_pct_dot R = true ->
+  relative_ref R = false ->
+  components (normalize 63 (snd (add_base c (normalize 63 R) B)))
+  = components (normalize 63 (snd (add_base c R B))).
+Proof. exact commute_not_relative. Qed.
+Print Assumptions C09_commute_not_relative.
+
+(* D7a: "a/.." against "s://h/x/y" *)
+Theorem C09_commute_refuted :
+  exists R B, parsed "a/.." R /\ parsed "s://h/x/y" B
+    /\ uri_pct_wf R = true /\ one_kind R = true /\ no_pct_dot R = true /\ wf R = true /\ wf B = true
+    /\ kf_cancels R = true /\ kf_dot_eaten R = false
+    /\ to_text (normalize 63 (snd (add_base false (normalize 63 R) B))) = txt "s://h/x/y"
+    /\ to_text (normalize 63 (snd (add_base false R B))) = txt "s://h/x/".
+Proof. exact commute_cancels_refuted. Qed.
+Print Assumptions C09_commute_refuted.
+
+(* D7e: "./b:c/../../x" against "s:/a/b:c" *)
+Theorem C09_commute_dot_eaten_refuted :
+  exists R B, parsed "./b:c/../../x" R /\ parsed "s:/a/b:c" B
+    /\ uri_pct_wf R = true /\ one_kind R = true /\ no_pct_dot R = true /\ wf R = true /\ wf B = true
+    /\ kf_cancels R = false /\ kf_dot_eaten R = true
+    /\ to_text (normalize 63 R) = txt "x"
+    /\ to_text (normalize 63 (snd (add_base false (normalize 63 R) B))) = txt "s:/a/x"
+    /\ to_text (normalize 63 (snd (add_base false R B))) = txt "s:/x".
+Proof. exact commute_dot_eaten_refuted. Qed.
+Print Assumptions C09_commute_dot_eaten_refuted.
+
+(* the exclusion of percent-encoded dot segments in the property is needed: "/a/%2e%2e/../b" *)
+Theorem C09_commute_pct_dot_refuted :
+  exists R B, parsed "/a/%2e%2e/../b" R /\ parsed "s://h/x" B
+    /\ uri_pct_wf R = true /\ one_kind R = true /\ no_pct_dot R = false /\ relative_ref R = false
+    /\ to_text (normalize 63 (snd (add_base false (normalize 63 R) B))) = txt "s://h/b"
+    /\ to_text (normalize 63 (snd (add_base false R B))) = txt "s://h/a/b".
+Proof. exact commute_pct_dot_refuted. Qed.
+Print Assumptions C09_commute_pct_dot_refuted.
+
+(* with URI_RESOLVE_IDENTICAL_SCHEME_COMPAT a reference carrying the base's scheme is resolved as if it had
+   none but normalized as the absolute URI it is; and normalization can make two schemes identical *)
+Theorem C09_commute_compat_refuted :
+  (exists R B, parsed "t:." R /\ parsed "t:/x/y" B
+     /\ to_text (normalize 63 (snd (add_base true (normalize 63 R) B))) = txt "t:/x/y"
+     /\ to_text (normalize 63 (snd (add_base true R B))) = txt "t:/x/")
+  /\ (exists R B, parsed "T:a" R /\ parsed "t:/x/y" B
+     /\ to_text (normalize 63 (snd (add_base true (normalize 63 R) B))) = txt "t:/x/a"
+     /\ to_text (normalize 63 (snd (add_base true R B))) = txt "t:a").
+Proof. exact commute_compat_refuted. Qed.
+Print Assumptions C09_commute_compat_refuted.
+
+(* the two hypotheses about objects that no parsed URI violates cannot be dropped either *)
+Theorem C09_commute_base_flag_refuted :
+  exists R B B0, parsed "../a/.." R /\ parsed "s://h/x" B0 /\ B = set_absolutePath true B0
+    /\ uri_pct_wf R = true /\ one_kind R = true /\ no_pct_dot R = true
+    /\ kf_cancels R = false /\ kf_dot_eaten R = false
+    /\ components (normalize 63 (snd (add_base false (normalize 63 R) B)))
+       <> components (normalize 63 (snd (add_base false R B))).
+Proof. exact commute_base_flag_refuted. Qed.
+Print Assumptions C09_commute_base_flag_refuted.
+
+Theorem C09_commute_two_host_kinds_refuted :
+  exists R B, R = mkUri None None (Some [86]) (Some [1; 2; 3; 4]) None (Some [86]) None [] None None false false
+    /\ parsed "s://h/x" B /\ uri_pct_wf R = true /\ one_kind R = false /\ no_pct_dot R = true
+    /\ relative_ref R = false
+    /\ components (normalize 63 (snd (add_base false (normalize 63 R) B)))
+       <> components (normalize 63 (snd (add_base false R B))).
+Proof. exact commute_two_host_kinds_refuted. Qed.
+Print Assumptions C09_commute_two_host_kinds_refuted.
+
+(* ---- 3. the kind of a reference with neither scheme nor authority ------------------------ *)
+(* [path_kind u]: the recomposed path is empty / begins with "/" / anything else;
+   [reads_scheme u]: the recomposed text begins with a scheme (the scheme field, or a rootless host-less path
+   whose first segment contains ':'); [reads_authority u]: the host, or a path text beginning with "//" *)
+Theorem C09_kind_kept : forall R,
+  scheme R = None -> is_host_set R = false -> wf R = true ->
+  kf_cancels R = false -> kf_exposes_empty R = false -> kf_exposes_colon R = false -> kf_abs_dslash R = false ->
+  path_kind (normalize 63 R) = path_kind R
+  /\ reads_scheme (normalize 63 R) = false /\ reads_authority (normalize 63 R) = false.
+Proof. exact kind_kept. Qed.
+Print Assumptions C09_kind_kept.
+
+Theorem C09_kind_cancels_refuted :
+  exists R, parsed "a/.." R /\ wf R = true /\ kf_cancels R = true
+    /\ path_kind R = PRelative /\ path_kind (normalize 63 R) = PEmpty.
+Proof. exact kind_cancels_refuted. Qed.
+Print Assumptions C09_kind_cancels_refuted.
+
+Theorem C09_kind_exposes_empty_refuted :
+  exists R, parsed "a/..//b" R /\ wf R = true /\ kf_cancels R = false /\ kf_exposes_empty R = true
+    /\ path_kind R = PRelative /\ path_kind (normalize 63 R) = PAbsolute
+    /\ to_text (normalize 63 R) = txt "/b".
+Proof. exact kind_exposes_empty_refuted. Qed.
+Print Assumptions C09_kind_exposes_empty_refuted.
+
+Theorem C09_kind_exposes_colon_refuted :
+  exists R v, parsed "a/../b:c" R /\ wf R = true /\ kf_exposes_colon R = true
+    /\ reads_scheme R = false /\ reads_scheme (normalize 63 R) = true
+    /\ parse (to_text (normalize 63 R)) = POk v /\ scheme R = None /\ scheme v = Some (txt "b").
+Proof. exact kind_exposes_colon_refuted. Qed.
+Print Assumptions C09_kind_exposes_colon_refuted.
+
+Theorem C09_kind_abs_dslash_refuted :
+  exists R v, parsed "/..//." R /\ wf R = true /\ kf_abs_dslash R = true
+    /\ reads_authority R = false /\ reads_authority (normalize 63 R) = true
+    /\ parse (to_text (normalize 63 R)) = POk v /\ is_host_set R = false /\ is_host_set v = true.
+Proof. exact kind_abs_dslash_refuted. Qed.
+Print Assumptions C09_kind_abs_dslash_refuted.
+
+(* ---- the hypotheses are satisfiable, the theorems say something -------------------------- *)
+(* the stale dot D7d is inside C09_commute *)
+Example C09_stale_dot_covered :
+  exists R, parsed "./b:c/../x" R /\ to_text (normalize 63 R) = txt "./x"
+    /\ uri_pct_wf R = true /\ one_kind R = true /\ no_pct_dot R = true
+    /\ kf_cancels R = false /\ kf_dot_eaten R = false.
+Proof. exact stale_dot_covered. Qed.
+
+(* a relative-path reference with dot segments, percent-encodings and a query against a base with all
+   components: every hypothesis of C09_commute holds, the result is "s://u@h:8/x/y/~a/b?q%3D" *)
+Example C09_commute_nonvacuous :
+  exists R B, parsed "../y/./%7ea/c/../b?q%3d" R /\ parsed "S://u@H:8/x/y/z?k#f" B
+    /\ uri_pct_wf R = true /\ one_kind R = true /\ no_pct_dot R = true /\ wf B = true
+    /\ kf_cancels R = false /\ kf_dot_eaten R = false
+    /\ to_text (normalize 63 R) = txt "../y/~a/b?q%3D"
+    /\ to_text (normalize 63 (snd (add_base false R B))) = txt "s://u@h:8/x/y/~a/b?q%3D".
+Proof. do 2 eexists. split; [vm_compute; reflexivity|]. split; [vm_compute; reflexivity|]. repeat split. Qed.
+
+Example C09_kind_nonvacuous :
+  exists R, parsed "a/../b/./c" R /\ scheme R = None /\ is_host_set R = false /\ wf R = true
+    /\ kf_cancels R = false /\ kf_exposes_empty R = false /\ kf_exposes_colon R = false /\ kf_abs_dslash R = false
+    /\ to_text (normalize 63 R) = txt "b/c" /\ path_kind R = PRelative.
+Proof. eexists. split; [vm_compute; reflexivity|]. repeat split. Qed.
+
+(* the two carve-outs of C09_commute are exact on a small scope (computed in Proofs/CommuteProofs.v): of the
+   656 well-formed relative-path references with at most four segments over {"", ".", "..", "a", "b:c"}, or
+   "./b:c/../.." and at most two more, those in one of the two shapes fail against one of three bases, all
+   others commute against all three *)
+Example C09_carveouts_exact_small_scope :
+  forallb (fun R => if kf_cancels R || kf_dot_eaten R
+                    then existsb (fun B => negb (commutes_b R B)) scope_bases
+                    else forallb (fun B => commutes_b R B) scope_bases) scope_refs = true
+  /\ existsb kf_cancels scope_refs = true /\ existsb kf_dot_eaten scope_refs = true
+  /\ (600 <=? N.of_nat (length scope_refs)) = true.
+Proof. exact carveouts_exact_small_scope. Qed.
